@@ -35,6 +35,7 @@ type c11call struct {
 	Sys    byte
 	Comp   byte
 	Compat byte // compatibility flags of forwarded v2 frames (third-party authors use them)
+	Signed bool // forwarded v2 frame that carries a signature block (the node has no key: it goes out as it came)
 	Frame  bool
 	V1     bool
 }
@@ -294,11 +295,23 @@ func c11scenario(rep *vh.Report, seed uint64, idx int) {
 							f2.Signature = &frame.V2Signature{0xFD, 0xFE, 0xFD, 0xFE, 0xFD, 0xFE}
 							f2.SignatureLinkID = 0xFD
 							f2.SignatureTimestamp = 0xFDFEFDFEFDFE
+						} else if gr.Chance(1, 4) {
+							// a SIGNED frame routed by this node, which has no key of its own: it leaves with its own flags and its own
+							// signature block, whatever the checksum it carried (a decoded message is re-encoded, its checksum with it)
+							c.Signed = true
+							f2.IncompatibilityFlag = 1
+							f2.Signature = &frame.V2Signature{0xA1, 0xA2, 0xA3, 0xA4, 0xA5, byte(i)}
+							f2.SignatureLinkID = 0x5C
+							f2.SignatureTimestamp = 0x0000123456789A
+							f2.Checksum = 0x4242
 						}
 						fr = f2
 					}
 					if raw, ok := msg.(*message.MessageRaw); ok {
 						sp := &ref.FrameSpec{Version: 2, Seq: c.Seq, Sys: c.Sys, Comp: c.Comp, Compat: c.Compat, MsgID: raw.ID, Payload: raw.Payload}
+						if c.Signed {
+							sp.Signed, sp.Incompat = true, 1
+						}
 						crc := uidLayout.CRCExtra
 						if v1 {
 							sp.Version = 1
@@ -480,7 +493,11 @@ func c11scenario(rep *vh.Report, seed uint64, idx int) {
 			}
 			// headers: forwarded frames keep their own, originated messages get the link's
 			if c.Frame {
-				if f.Seq != c.Seq || f.Sys != c.Sys || f.Comp != c.Comp || (f.Version == 1) != c.V1 || f.Compat != c.Compat {
+				if c.Signed && (!f.Signed || f.LinkID != 0x5C || f.Timestamp != 0x0000123456789A || f.Signature[0] != 0xA1 || f.Signature[4] != 0xA5) {
+					rep.Violation("what=header ep=custom", "a signed frame forwarded by a node without a key did not keep its flags / signature block",
+						map[string]interface{}{"signed_on_wire": f.Signed, "incompat": f.Incompat, "link": f.LinkID, "timestamp": f.Timestamp})
+				}
+				if f.Seq != c.Seq || f.Sys != c.Sys || f.Comp != c.Comp || (f.Version == 1) != c.V1 || f.Compat != c.Compat || f.Signed != c.Signed {
 					rep.Violation("what=header ep=custom", "a forwarded frame did not keep its own header fields / version",
 						map[string]interface{}{"got": []int{int(f.Seq), int(f.Sys), int(f.Comp), f.Version}, "want": []int{int(c.Seq), int(c.Sys), int(c.Comp)}})
 				}
